@@ -13,11 +13,15 @@ open BState
 def SameOut (b b' : BSess) : Prop :=
   b'.sess.outgoing = b.sess.outgoing ∧ b'.sess.counter = b.sess.counter
 
-/-- at most one delivery happened: the session's next id was allocated and the PUBLISH saved -/
+/-- at most one delivery happened: a packet id that the outgoing store does not use was allocated
+    (`MemorySession.freshID`, the broker's `Client.nextID`) and the PUBLISH saved under it; or no id
+    was left (the dying dequeuer drops the message): only the counter moved -/
 def Take1 (b b' : BSess) : Prop :=
   SameOut b b' ∨
-  ∃ m, b'.sess.outgoing = b.sess.outgoing.save (.publish m false b.sess.nextID.1) ∧
-    b'.sess.counter = b.sess.nextID.2.counter
+  (b'.sess.outgoing = b.sess.outgoing ∧ b'.sess.counter = b.sess.freshID.2.counter) ∨
+  ∃ m, (b.sess.freshID.1 ≠ 0 ∧
+      b'.sess.outgoing = b.sess.outgoing.save (.publish m false b.sess.freshID.1)) ∧
+    b'.sess.counter = b.sess.freshID.2.counter
 
 /-- every stored session still exists, with the same outgoing store and id counter -/
 def SSame (s s' : BState) : Prop :=
@@ -49,19 +53,21 @@ theorem SGrow1.after_same {s s' s'' : BState} (h : SGrow1 s s') (h' : SSame s' s
   obtain ⟨b', hb', ht⟩ := h cid b hb
   obtain ⟨b'', hb'', e3, e4⟩ := h' cid b' hb'
   refine ⟨b'', hb'', ?_⟩
-  rcases ht with ⟨e1, e2⟩ | ⟨m, e1, e2⟩
+  rcases ht with ⟨e1, e2⟩ | ⟨e1, e2⟩ | ⟨m, ⟨hz, e1⟩, e2⟩
   · exact Or.inl ⟨e3.trans e1, e4.trans e2⟩
-  · exact Or.inr ⟨m, e3.trans e1, e4.trans e2⟩
+  · exact Or.inr (Or.inl ⟨e3.trans e1, e4.trans e2⟩)
+  · exact Or.inr (Or.inr ⟨m, ⟨hz, e3.trans e1⟩, e4.trans e2⟩)
 
 theorem SGrow1.before_same {s s' s'' : BState} (h : SSame s s') (h' : SGrow1 s' s'') : SGrow1 s s'' := by
   intro cid b hb
   obtain ⟨b', hb', e1, e2⟩ := h cid b hb
   obtain ⟨b'', hb'', ht⟩ := h' cid b' hb'
   refine ⟨b'', hb'', ?_⟩
-  rcases ht with ⟨e3, e4⟩ | ⟨m, e3, e4⟩
+  obtain ⟨n1, n2⟩ := MemorySession.freshID_congr e2 e1
+  rcases ht with ⟨e3, e4⟩ | ⟨e3, e4⟩ | ⟨m, ⟨hz, e3⟩, e4⟩
   · exact Or.inl ⟨e3.trans e1, e4.trans e2⟩
-  · obtain ⟨n1, n2⟩ := nextID_of_counter e2
-    exact Or.inr ⟨m, by rw [e3, e1, n1], by rw [e4, n2]⟩
+  · exact Or.inr (Or.inl ⟨e3.trans e1, by rw [e4, n2]⟩)
+  · exact Or.inr (Or.inr ⟨m, ⟨by rw [← n1]; exact hz, by rw [e3, e1, n1]⟩, by rw [e4, n2]⟩)
 
 theorem SSame.of_coreEq {s s' : BState} (h : CoreEq s s') : SSame s s' := by
   intro cid b hb
@@ -78,26 +84,17 @@ theorem SSame.terminate (s : BState) (c : ConnId) : SSame s (backendTerminate s 
     · exact ⟨b, hb, rfl, rfl⟩
   · exact ⟨b, hb, rfl, rfl⟩
 
-/-- what an entry of the old store can rely on after at most one delivery -/
+/-- what an entry of the old store can rely on after at most one delivery: it is still there — the
+    delivery was saved under an id the store did not use (`MemorySession.freshID_unused`) -/
 theorem Take1.kept {b b' : BSess} (h : Take1 b b') {k : UInt16} {p : Packet}
-    (hm : (k, p) ∈ b.sess.outgoing.entries) (hk : k ≠ b.sess.nextID.1) :
-    (k, p) ∈ b'.sess.outgoing.entries := by
-  rcases h with ⟨e, _⟩ | ⟨m, e, _⟩
+    (hm : (k, p) ∈ b.sess.outgoing.entries) : (k, p) ∈ b'.sess.outgoing.entries := by
+  rcases h with ⟨e, _⟩ | ⟨e, _⟩ | ⟨m, ⟨hz, e⟩, _⟩
+  · rw [e]; exact hm
   · rw [e]; exact hm
   · rw [e, save_publish_entries]
+    have hk : k ≠ b.sess.freshID.1 :=
+      PacketStore.not_mem_of_lookup_none (MemorySession.freshID_unused _ hz) hm
     exact List.mem_append_left _ ((mem_erase _ _ _).2 ⟨hm, hk⟩)
-
-theorem Take1.kept_or_reused {b b' : BSess} (h : Take1 b b') {k : UInt16} {p : Packet}
-    (hm : (k, p) ∈ b.sess.outgoing.entries) :
-    (k, p) ∈ b'.sess.outgoing.entries ∨ ∃ m, (k, Packet.publish m false k) ∈ b'.sess.outgoing.entries := by
-  by_cases hk : k = b.sess.nextID.1
-  · rcases h with ⟨e, _⟩ | ⟨m, e, _⟩
-    · left; rw [e]; exact hm
-    · right
-      refine ⟨m, ?_⟩
-      rw [e, save_publish_entries, hk]
-      exact List.mem_append_right _ (List.mem_singleton.2 rfl)
-  · exact Or.inl (h.kept hm hk)
 
 /-! ### `kill` -/
 
@@ -108,9 +105,14 @@ theorem lastTake_take1 (s : BState) (c : ConnId) {b bq : BSess} {out : Message} 
   unfold lastTake
   split
   · exact ⟨bq, rfl, Or.inl ⟨by rw [e1], by rw [e1]⟩, rfl, rfl, e3, e2⟩
-  · refine ⟨_, rfl, Or.inr ⟨out, ?_, ?_⟩, rfl, rfl, e3, e2⟩
-    · simp only [savePacket_outgoing, nextID_outgoing, e1]
-    · simp only [e1]; rfl
+  · split
+    · refine ⟨_, rfl, Or.inr (Or.inl ⟨?_, ?_⟩), rfl, rfl, e3, e2⟩
+      · simp only [MemorySession.freshID_outgoing, e1]
+      · simp only [e1]
+    · rename_i hz
+      refine ⟨_, rfl, Or.inr (Or.inr ⟨out, ⟨by rw [← e1]; exact hz, ?_⟩, ?_⟩), rfl, rfl, e3, e2⟩
+      · simp only [savePacket_outgoing, MemorySession.freshID_outgoing, e1]
+      · simp only [e1]; rfl
 
 theorem setSessOf_grow {s : BState} {c : ConnId} {b b1 : BSess} (hb : s.sessOf c = some b)
     (ht : Take1 b b1) : SGrow1 s (s.setSessOf c b1) := by
@@ -277,9 +279,10 @@ theorem finished_grow {s : BState} {c : ConnId} {x : BConn} {b bq : BSess} {m : 
   · unfold finishQ0
     exact (setSessOf_grow hb (Or.inl ⟨by rw [e1], by rw [e1]⟩)).after_same (fun _ b h => ⟨b, h, rfl, rfl⟩)
   · unfold finishQ12
-    refine (setSessOf_grow hb (Or.inr ⟨m, ?_, ?_⟩)).after_same (fun _ b h => ⟨b, h, rfl, rfl⟩)
-    · simp only [savePacket_outgoing, nextID_outgoing, e1]
-      rw [← hid, e1]
+    refine (setSessOf_grow hb (Or.inr (Or.inr ⟨m, ⟨by rw [← e1]; exact hid.1, ?_⟩, ?_⟩))).after_same
+      (fun _ b h => ⟨b, h, rfl, rfl⟩)
+    · simp only [savePacket_outgoing, MemorySession.freshID_outgoing, e1]
+      rw [← hid.2, e1]
     · simp only [e1]; rfl
 
 theorem acceptDelivery_grow {s : BState} {c : ConnId} {x : BConn} {b : BSess} {m : Message}
@@ -321,33 +324,29 @@ theorem Pop.queues {b bq : BSess} {m : Message} (h : Pop b m bq) :
     have := mem_takeWhile_prop _ _ _ he
     simpa using this
 
-/-! ### entries kept (or overwritten by a delivery that reuses the id) — the transitive form -/
+/-! ### entries kept — the transitive form -/
 
-/-- every entry of the outgoing store of stored session `cid` is still there, unless a fresh
-    delivery reused its packet id (id wrap-around onto an unacknowledged id) -/
+/-- every entry of the outgoing store of stored session `cid` is still there (a fresh delivery never
+    takes a packet id that the store still uses) -/
 def KeptAt (cid : ClientId) (s s' : BState) : Prop :=
   ∀ b k p, Assoc.get s.stored cid = some b → (k, p) ∈ b.sess.outgoing.entries →
-    ∃ b', Assoc.get s'.stored cid = some b' ∧
-      ((k, p) ∈ b'.sess.outgoing.entries ∨ ∃ m, (k, Packet.publish m false k) ∈ b'.sess.outgoing.entries)
+    ∃ b', Assoc.get s'.stored cid = some b' ∧ (k, p) ∈ b'.sess.outgoing.entries
 
 def Kept (s s' : BState) : Prop := ∀ cid, KeptAt cid s s'
 
 theorem KeptAt.refl (cid : ClientId) (s : BState) : KeptAt cid s s :=
-  fun b _ _ hb hm => ⟨b, hb, Or.inl hm⟩
+  fun b _ _ hb hm => ⟨b, hb, hm⟩
 
 theorem KeptAt.trans {cid : ClientId} {s s' s'' : BState} (h : KeptAt cid s s') (h' : KeptAt cid s' s'') :
     KeptAt cid s s'' := by
   intro b k p hb hm
-  obtain ⟨b', hb', hm' | ⟨m, hm'⟩⟩ := h b k p hb hm
-  · exact h' b' k p hb' hm'
-  · obtain ⟨b'', hb'', h2 | ⟨m2, h2⟩⟩ := h' b' k _ hb' hm'
-    · exact ⟨b'', hb'', Or.inr ⟨m, h2⟩⟩
-    · exact ⟨b'', hb'', Or.inr ⟨m2, h2⟩⟩
+  obtain ⟨b', hb', hm'⟩ := h b k p hb hm
+  exact h' b' k p hb' hm'
 
 theorem SGrow1.keptAt {s s' : BState} (h : SGrow1 s s') (cid : ClientId) : KeptAt cid s s' := by
   intro b k p hb hm
   obtain ⟨b', hb', ht⟩ := h cid b hb
-  exact ⟨b', hb', ht.kept_or_reused hm⟩
+  exact ⟨b', hb', ht.kept hm⟩
 
 theorem SGrow1.kept {s s' : BState} (h : SGrow1 s s') : Kept s s' := fun cid => h.keptAt cid
 
@@ -360,7 +359,7 @@ theorem lastDequeue_conn? {s : BState} {c : ConnId} {x : BConn} {s1 : BState}
     (h1 : s1 ∈ lastDequeue s c x) (c' : ConnId) : s1.conn? c' = s.conn? c' := by
   rcases lastDequeue_cases h1 with rfl | ⟨_, _, b, out, bq, _, _, rfl⟩
   · rfl
-  · unfold lastTake; split <;> simp
+  · unfold lastTake; split <;> (try split) <;> simp
 
 theorem killed_dead {s : BState} {c : ConnId} {s' : BState} (hk : Killed s c s') :
     ∀ x', s'.conn? c = some x' → x'.alive = false := by
@@ -449,7 +448,7 @@ theorem killed_cfg {s : BState} {c : ConnId} {s' : BState} (hk : Killed s c s') 
     intro x s1 h1
     rcases lastDequeue_cases h1 with rfl | ⟨_, _, b, out, bq, _, _, rfl⟩
     · rfl
-    · unfold lastTake; split <;> simp
+    · unfold lastTake; split <;> (try split) <;> simp
   cases hk with
   | noop _ e => rw [e]
   | zombie x s1 _ _ h1 _ e => rw [e]; exact (ld h1 : s1.cfg = s.cfg)
